@@ -281,10 +281,10 @@
                   (and (string-cursor? (regexp-match-ref m1 (+ i 1)))
                        (string-cursor<? (regexp-match-ref m1 (+ i 1))
                                         (regexp-match-ref m1 i)))
-                  ((if (memq (+ i 1) non-greedy-indexes) not values)
-                   (and
-                    (string-cursor=? (regexp-match-ref m2 i)
-                                     (regexp-match-ref m1 i))
+                  (and
+                   (string-cursor=? (regexp-match-ref m2 i)
+                                    (regexp-match-ref m1 i))
+                   ((if (memq (+ i 1) non-greedy-indexes) not values)
                     (or (not (string-cursor? (regexp-match-ref m2 (+ i 1))))
                         (and (string-cursor? (regexp-match-ref m1 (+ i 1)))
                              (string-cursor>?
